@@ -131,8 +131,8 @@ class C17(Check):
             "length within +-3 of every multiple of 136 up to 1100 (thorough: three contents for every length 0..1100 "
             "plus 200 random lengths up to 20000; quick: 6 such), plus published vectors; h2s on the digests 0, 1, l-1, l, l+1, 2l, 15l..16l+1, 2^252, 2^255, "
             "2^256-1 and seeded random 32-byte strings; non-trivial = distinct case line")
-    level_note = ("theorems are about the Gallina model Model/Keccak.v (Keccak-f[1600] on 25 lanes is itself the "
-                  "reference: only the padding is refined to a bit-level specification); tie to "
+    level_note = ("theorems are about the Gallina model Model/Keccak.v, proved equal on bit strings to the FIPS 202 sponge over "
+                  "a bit-level Keccak-p[1600,24] (Spec/Sponge.v, Spec/KeccakF.v, Spec/Pad.v; no domain suffix); the tie to "
                   "src/cryptonote/hash.rs (tiny-keccak, curve25519-dalek reduction) is the correspondence check")
     evalA_sample = 400   # mostly cheap h2s cases; about 20 of them are keccak cases (30 ms per permutation in the VM)
 
